@@ -305,10 +305,9 @@ Definition dom_mod (a b : Z) : Z := mod_I a b.
 Definition dom_modin (r b : Z) : Z := modin_I r b.
 Definition dom_divmod (a b : Z) : Z * Z := divmod_I a b.
 Definition dom_divexact (a b : Z) : Z := divexact_q_I a b.
-(* quo(q,a,b): body AFTER frag/C02.fix-1.diff
-     { return (b < 0) ? Integer::ceil(q,a,b) : Integer::floor(q,a,b); }
-   (before the repair the body is `return Integer::floor(q,a,b);` = dom_quo_floor, which disagrees with
-    rem / quoRem for b < 0: lemma quo_floor_inconsistent) *)
+(* quo(q,a,b) { return (b < 0) ? Integer::ceil(q,a,b) : Integer::floor(q,a,b); }      (since a7f1360 = frag/C02.fix-1.diff;
+   before it the body was `return Integer::floor(q,a,b);` = dom_quo_floor below, which disagrees with rem / quoRem for
+   b < 0: lemma quo_floor_inconsistent) *)
 Definition dom_quo (a b : Z) : Z := if b <? 0 then ceil_r a b else floor_r a b.
 Definition dom_quo_floor (a b : Z) : Z := floor_r a b.
 (* rem(r,a,b) { return Integer::mod(r,a,b); } *)
